@@ -225,6 +225,11 @@ func (r *Router) AddNamed(name, path string, handler HandlerFunc, methods ...str
 func (r *Router) AddRoute(route *Route) *Route {
 	r.appendRoute(route)
 
+	// entries cached before this route existed may no longer be the best match
+	if r.cachedRoutes != nil && r.cachedRoutes.Len() > 0 {
+		r.cachedRoutes = nil
+	}
+
 	// init route cache container
 	if r.enableCaching && r.cachedRoutes == nil {
 		r.cachedRoutes = NewCachedRoutes(int(r.maxNumCaches))
